@@ -96,6 +96,13 @@ def run(ctx, chk):
                 v["rule"] = v["rule"].replace("C20/", "C18/abort-")
                 v["key"] = v["key"].replace("C20/", "C18/abort-")
                 chk.violations.append(v)
+    # the card's status reaches read_card through the retry wrapper: its per-attempt bookkeeping (a failed attempt
+    # is abandoned, a successful one is final and not re-issued) is decided by the C09-a/b clauses
+    import rules_c09
+    from report import Sub
+    sub9 = Sub(chk, "C18/transport", lambda r: r in ("C09-a/reset-on-failure", "C09-b/keep-on-success", "C09-b/reconnect-only-when-dead"))
+    rules_c09.retry(sub9, crate)
+    chk.floor("retry-wrapper obligations (shared with C09)", sub9.count, 3)
     chk.floor("C18 obligations", len(chk.obligations), 14)
 
 
